@@ -10,7 +10,13 @@ No interpretation happens here except:
   * `x.append(e)` as a statement, `x[i] = e`, `x[:k] = e` become the mutation statements of PyLite,
     which rebind x.  That is faithful only if no alias of the object is live, so they are admitted
     only when x provably (syntactically, see Fresh) holds a fresh list / array that has not escaped.
-  * the message expression of a `raise` is dropped (PyLite has one exception)."""
+  * the message expression of a `raise` is dropped (PyLite has one exception).
+  * `h.m(args)` where m changes the state of its receiver (STATEFUL_METHODS: `readline` of a file ...) and h
+    is a parameter becomes the statement `SCallSt "$k" h "meth:m" args` (the specification of m returns the
+    result and the new state of h; h is rebound) placed BEFORE the statement it occurs in, and the call is
+    replaced by the temporary `$k`.  Hoisting is admitted only when the call is the first thing the statement
+    evaluates (so that nothing is reordered), at most once per statement, never inside a part that may run
+    zero or several times; and h may occur in the function ONLY as the receiver of such calls (no alias)."""
 import ast
 import os
 from fractions import Fraction
@@ -67,6 +73,42 @@ def is_int_const(node):
         return False
 
 
+# methods that change the state of their receiver (see the module docstring)
+STATEFUL_METHODS = {"readline"}
+
+
+def first_evaluated(node):
+    """the sub-expression of `node` that Python evaluates first (None: a leaf / unknown form)"""
+    if isinstance(node, ast.Call):
+        if isinstance(node.func, ast.Attribute):
+            return node.func.value              # the receiver of a method call / the module of np.f
+        if node.args:
+            return node.args[0]
+        return None
+    if isinstance(node, ast.Attribute):
+        return node.value
+    if isinstance(node, ast.BinOp):
+        return node.left
+    if isinstance(node, ast.Compare):
+        return node.left
+    if isinstance(node, ast.Subscript):
+        return node.value
+    if isinstance(node, ast.UnaryOp):
+        return node.operand
+    if isinstance(node, (ast.Tuple, ast.List)):
+        return node.elts[0] if node.elts else None
+    if isinstance(node, (ast.ListComp, ast.GeneratorExp)):
+        return node.generators[0].iter
+    if isinstance(node, ast.Starred):
+        return node.value
+    return None
+
+
+def is_stateful_call(node):
+    return (isinstance(node, ast.Call) and isinstance(node.func, ast.Attribute)
+            and node.func.attr in STATEFUL_METHODS)
+
+
 TYPE_NAMES = ("bool", "int", "float")
 FUNC_NAMES = ("sum", "len", "abs", "min", "max")
 
@@ -75,6 +117,8 @@ class Translator:
     def __init__(self, modules):
         self.modules = set(modules)     # names bound by import statements of the file
         self.locals = set()             # names bound in the function being translated
+        self.handles = set()            # parameters whose state is changed by hoisted method calls
+        self.ntemp = 0
 
     def dotted(self, node):
         """a.b.c rooted at an imported module -> 'a.b.c', else None"""
@@ -88,6 +132,9 @@ class Translator:
     def call(self, e):
         f = e.func
         pos = list(e.args)
+        if is_stateful_call(e):
+            raise Unsupported("state-changing call %s not in the first-evaluated position of its statement"
+                              % e.func.attr)
         if any(isinstance(a, ast.Starred) for a in pos) or any(k.arg is None for k in e.keywords):
             raise Unsupported("* / ** in call")
         if (isinstance(f, ast.Name) and f.id in ("all", "any", "tuple", "list") and len(pos) == 1
@@ -214,6 +261,57 @@ class Translator:
             return "(EIdx %s %s)" % (expr(e.value), expr(sl))
         raise Unsupported(ast.dump(e)[:200])
 
+    def hoist(self, owner, field):
+        """If the expression owner.field starts (in evaluation order) with a state-changing method call on a
+        plain name, replace that call by a temporary and return the SCallSt statement to run before; else []."""
+        root = getattr(owner, field)
+        if root is None:
+            return []
+        parent, pfield, pidx, node = owner, field, None, root
+        while node is not None and not is_stateful_call(node):
+            nxt = first_evaluated(node)
+            if nxt is None:
+                return []
+            # locate nxt among node's fields so that it can be replaced
+            found = None
+            for fname, value in ast.iter_fields(node):
+                if value is nxt:
+                    found = (fname, None)
+                elif isinstance(value, list):
+                    for i, v in enumerate(value):
+                        if v is nxt:
+                            found = (fname, i)
+                        elif isinstance(v, ast.comprehension) and v.iter is nxt:
+                            parent, pfield, pidx = v, "iter", None
+                            found = "done"
+                elif isinstance(value, ast.Attribute) and value.value is nxt:      # receiver of a method call
+                    parent, pfield, pidx = value, "value", None
+                    found = "done"
+            if found is None:
+                return []
+            if found != "done":
+                parent, pfield, pidx = node, found[0], found[1]
+            node = nxt
+        if node is None:
+            return []
+        call = node
+        recv = call.func.value
+        if not isinstance(recv, ast.Name) or recv.id in self.modules:
+            raise Unsupported("state-changing method %s on something that is not a plain name" % call.func.attr)
+        if call.keywords or any(isinstance(a, ast.Starred) for a in call.args):
+            raise Unsupported("keywords / * in a state-changing call")
+        self.ntemp += 1
+        tmp = "$%d" % self.ntemp
+        self.handles.add(recv.id)
+        pre = "SCallSt %s %s %s %s" % (cstr(tmp), cstr(recv.id), cstr("meth:" + call.func.attr),
+                                       lst([self.expr(a) for a in call.args]))
+        new = ast.copy_location(ast.Name(id=tmp, ctx=ast.Load()), call)
+        if pidx is None:
+            setattr(parent, pfield, new)
+        else:
+            getattr(parent, pfield)[pidx] = new
+        return [pre]
+
     def append_call(self, s):
         """x.append(e) as a statement, x a local name"""
         if (isinstance(s, ast.Expr) and isinstance(s.value, ast.Call) and isinstance(s.value.func, ast.Attribute)
@@ -227,6 +325,13 @@ class Translator:
     def stmts(self, body):
         out = []
         for pos_, s in enumerate(body):
+            # state-changing method calls are hoisted in front of the statement that starts with them
+            if isinstance(s, (ast.Assign, ast.Expr, ast.Return, ast.AugAssign)):
+                out.extend(self.hoist(s, "value"))
+            elif isinstance(s, ast.If):
+                out.extend(self.hoist(s, "test"))
+            elif isinstance(s, ast.For):
+                out.extend(self.hoist(s, "iter"))
             if (isinstance(s, ast.Assign) and len(s.targets) == 1 and isinstance(s.targets[0], ast.Name)
                     and isinstance(s.value, ast.GeneratorExp)):
                 # x = (generator): materialised as a list.  Equivalent only if the generator is consumed
@@ -480,7 +585,17 @@ def translate(path, names):
             params = [x.arg for x in a.args]
             tr.function = n
             tr.locals = set(params) | {x.id for x in ast.walk(n) if isinstance(x, ast.Name) and isinstance(x.ctx, ast.Store)}
+            tr.handles = set()
+            tr.ntemp = 0
             body = tr.stmts(n.body)
+            for h in tr.handles:
+                # a handle is a parameter and, once its state-changing calls are hoisted, occurs nowhere else
+                if h not in params:
+                    raise Unsupported("state-changing method on %s, which is not a parameter" % h)
+                if any(isinstance(x, ast.Name) and x.id == h for x in ast.walk(n)):
+                    raise Unsupported("%s has state-changing calls and is also used otherwise (possible alias)" % h)
+            if len(tr.handles) > 1:
+                raise Unsupported("several stateful parameters (they could be the same object)")
             Fresh(tr).block([s for s in n.body], {}, frozenset())
             ident = qual.replace(".", "_")
             found[qual] = "Definition src_%s : func :=\n  {| f_params := %s;\n     f_body := %s |}.\n" % (
